@@ -38,6 +38,15 @@ typedef unsigned short ushort;
     HANDLE_INTEGER_TYPES() \
     HANDLE_FLOAT_TYPES()
 
+// The kernels read the elements as native C values: an array in the other byte order would be
+// processed on its byte-swapped values without any warning.
+#define REQUIRE_NATIVE_BYTE_ORDER(array) \
+    if (!PyArray_ISNOTSWAPPED(array)) { \
+        PyErr_SetString(PyExc_TypeError, "mahotas: arrays in non-native byte order are not supported. " \
+                            "Please convert your data (e.g., `a.astype(a.dtype.newbyteorder('='))`) before calling mahotas functions."); \
+        return NULL; \
+    }
+
 #define HANDLE_FLOAT16() \
     case NPY_FLOAT16: \
         PyErr_SetString(PyExc_TypeError, "Mahotas does not support float16. " \
@@ -45,6 +54,7 @@ typedef unsigned short ushort;
         return NULL;
 
 #define SAFE_SWITCH_ON_TYPES_OF(array) \
+    REQUIRE_NATIVE_BYTE_ORDER(array) \
     try { \
         switch(PyArray_TYPE(array)) { \
                 HANDLE_TYPES();\
@@ -57,6 +67,7 @@ typedef unsigned short ushort;
     CATCH_PYTHON_EXCEPTIONS
 
 #define SAFE_SWITCH_ON_INTEGER_TYPES_OF(array) \
+    REQUIRE_NATIVE_BYTE_ORDER(array) \
     try { \
         switch(PyArray_TYPE(array)) { \
                 HANDLE_INTEGER_TYPES();\
@@ -68,6 +79,7 @@ typedef unsigned short ushort;
     CATCH_PYTHON_EXCEPTIONS
 
 #define SAFE_SWITCH_ON_FLOAT_TYPES_OF(array) \
+    REQUIRE_NATIVE_BYTE_ORDER(array) \
     try { \
         switch(PyArray_TYPE(array)) { \
                 HANDLE_FLOAT_TYPES();\
